@@ -235,6 +235,19 @@ def gen_lg_case(cuqi, rs, thorough, forced=None):
     # bias towards the `cov` parameterisation (the only one MAP reads) but keep all four
     c.prior = gen_spec(rs, c.npar, forced.get("prior_param"), pshape)
     c.lik = gen_spec(rs, c.m, forced.get("lik_param"), lshape)
+    c.scale = forced.get("scale")
+    if c.scale is not None:   # G4: both covariances scaled by the same factor (the estimate is invariant)
+        def rescale(sp):
+            f = {"cov": c.scale, "prec": 1.0 / c.scale, "sqrtcov": math.sqrt(c.scale), "sqrtprec": 1.0 / math.sqrt(c.scale)}[sp.param]
+            val = float(sp.value) * f if sp.shape == "scalar" else (np.array(sp.value, dtype=float) * f).tolist()
+            return Spec(sp.param, sp.shape, val, sp.d)
+        if forced.get("neardiag"):
+            for sp in (c.prior, c.lik):
+                if sp.shape == "matrix" and sp.param in ("cov", "prec"):
+                    V = np.array(sp.value); D = np.diag(np.diag(V))
+                    sp.value = (D + 1e-9 * (V - D)).tolist()
+            c.prior = Spec(c.prior.param, c.prior.shape, c.prior.value, c.prior.d); c.lik = Spec(c.lik.param, c.lik.shape, c.lik.value, c.lik.d)
+        c.prior = rescale(c.prior); c.lik = rescale(c.lik)
     c.compute_cov = bool(forced.get("compute_cov", rs.rand() < 0.7))
     mk = forced.get("mean", ["vector"] * 7 + ["zeros", "scalar0", "scalar"])
     if isinstance(mk, list):
@@ -257,7 +270,7 @@ def gen_lg_case(cuqi, rs, thorough, forced=None):
 def lg_desc(c):
     return {"m": c.m, "n_fun": c.nfun, "n_par": c.npar, "backing": c.backing, "geom": c.geom_label,
             "A": c.A.tolist(), "prior": [c.prior.param, c.prior.shape, c.prior.value], "lik": [c.lik.param, c.lik.shape, c.lik.value],
-            "compute_cov": c.compute_cov, "mean": (c.mean.tolist() if hasattr(c.mean, "tolist") else c.mean), "b": c.b.tolist()}
+            "scale": getattr(c, "scale", None), "compute_cov": c.compute_cov, "mean": (c.mean.tolist() if hasattr(c.mean, "tolist") else c.mean), "b": c.b.tolist()}
 
 
 def lg_key(c, site="MAP"):
@@ -266,28 +279,71 @@ def lg_key(c, site="MAP"):
     lk = c.lik.label + (cc if c.lik.param != "cov" else "")
     pr = c.prior.label + (cc if c.prior.param != "cov" else "")
     mean = "" if c.mean_kind in ("vector", "zeros") else ":mean-scalar"
-    return f"{site}:direct:{c.backing}:{g}:lik={lk}:prior={pr}{mean}"
+    sc = "" if getattr(c, "scale", None) is None else ":scaled"
+    return f"{site}:direct:{c.backing}:{g}:lik={lk}:prior={pr}{mean}{sc}"
 
 
-def build_lg(cuqi, c):
+def intify(a):
+    """the same numbers with an integer dtype / python ints where all values are integral (G1), else unchanged"""
+    arr = np.asarray(a, dtype=float)
+    if np.all(arr == np.round(arr)):
+        return int(arr) if arr.ndim == 0 else arr.astype(np.int64)
+    return a
+
+
+def build_lg(cuqi, c, as_int=False):
     from cuqi.distribution import Gaussian
     from cuqi.model import LinearModel
     from cuqi.problem import BayesianProblem
     from cuqi.geometry import Continuous1D
-    A = c.A
+    A = c.A.copy()
+    mean = c.mean.copy() if hasattr(c.mean, "copy") else c.mean
+    b = c.b.copy()
+    pk, lk = c.prior.kwargs(), c.lik.kwargs()
+    if as_int:
+        A = intify(A); mean = intify(mean); b = intify(b)
+        b = b.tolist() if isinstance(b, np.ndarray) and b.dtype.kind == "i" and len(b) % 2 == 0 else b
+        pk = {k: intify(v) for k, v in pk.items()}; lk = {k: intify(v) for k, v in lk.items()}
     if c.backing == "mb":
         M = LinearModel(A, domain_geometry=c.geom)
     else:
         M = LinearModel(lambda x: A @ x, lambda y: A.T @ y, range_geometry=Continuous1D(c.m), domain_geometry=c.geom)
-    x = Gaussian(c.mean, geometry=(c.geom if c.geom is not None else c.npar), **c.prior.kwargs())
-    y = Gaussian(M(x), **c.lik.kwargs())
-    BP = BayesianProblem(y, x).set_data(y=c.b)
+    x = Gaussian(mean, geometry=(c.geom if c.geom is not None else c.npar), **pk)
+    y = Gaussian(M(x), **lk)
+    BP = BayesianProblem(y, x).set_data(y=b)
     if c.compute_cov:
         if c.prior.param != "cov":
             BP.prior.compute_cov()
         if c.lik.param != "cov":
             BP.likelihood.distribution.compute_cov()
+    # caller-owned arrays (G2): what was handed to the constructors
+    c.held = {"A": A, "mean": mean, "b": b, "prior_arg": list(pk.values())[0], "lik_arg": list(lk.values())[0]}
     return BP
+
+
+def snap(obj):
+    """byte snapshot of an array / list / scalar / sparse matrix (None if not snapshotable)"""
+    try:
+        if hasattr(obj, "todense"):
+            obj = np.asarray(obj.todense())
+        a = np.asarray(obj)
+        return (str(a.dtype), a.shape, a.tobytes())
+    except Exception:
+        return None
+
+
+def stored_arrays(BP, held):
+    out = {"held:" + k: v for k, v in held.items()}
+    for nm, get in (("data", lambda: BP.data), ("prior.mean", lambda: BP.prior.mean), ("prior._cov", lambda: BP.prior._cov),
+                    ("prior.sqrtprec", lambda: BP.prior.sqrtprec), ("lik._cov", lambda: BP.likelihood.distribution._cov),
+                    ("lik.sqrtprec", lambda: BP.likelihood.distribution.sqrtprec), ("model._matrix", lambda: BP.model._matrix)):
+        try:
+            v = get()
+            if v is not None and not callable(v):
+                out[nm] = v
+        except Exception:
+            pass
+    return out
 
 
 def exc_name(e):
@@ -322,6 +378,8 @@ def run(ctx):
     run_routes(ctx, cuqi, rs, thorough)
     run_opt(ctx, cuqi, rs, thorough)
     run_ml_full(ctx, cuqi, rs, thorough)
+    run_starts(ctx, cuqi, rs, thorough)
+    run_opt_scale(ctx, cuqi, rs, thorough)
 
 
 CORPUS = [
@@ -356,6 +414,17 @@ def run_direct(ctx, cuqi, rs, thorough):
     cases = [gen_lg_case(cuqi, rs, thorough, f) for f in CORPUS]
     while len(cases) < ncases:
         cases.append(gen_lg_case(cuqi, rs, thorough))
+    # G4: full covariance / precision / square-root matrices at absolute scales 1e-12 .. 1e12 (relative correlations O(1)),
+    # and nearly-diagonal ones
+    scales = [1e-12, 1e-9, 1e-6, 1e-3, 1e3, 1e6, 1e9, 1e12]
+    for k in range(len(scales) * (6 if thorough else 3)):
+        f = dict(scale=scales[k % len(scales)], prior_shape="matrix", lik_shape="matrix", mean="vector",
+                 geom=["default", "Continuous1D", "Step-full"][k % 3], compute_cov=True,
+                 prior_param=["cov", "cov", "prec", "sqrtprec", "sqrtcov"][k % 5], lik_param=["cov", "prec", "cov", "sqrtcov", "sqrtprec"][(k // 2) % 5])
+        if k % 4 == 3:
+            f["neardiag"] = True
+        f["n"] = int(rs.randint(2, 5)); f["m"] = f["n"] + int(rs.randint(0, 3))
+        cases.append(gen_lg_case(cuqi, rs, thorough, f))
     # ---- model side, pass 1: get_matrix and the parameter-to-parameter matrix
     lines = []
     for c in cases:
@@ -389,6 +458,7 @@ def run_direct(ctx, cuqi, rs, thorough):
     outs2 = ctx.lean.drive(lines2)
     hist = {"map_ok": 0, "map_err": {}, "model_eq_ref": 0, "model_ne_ref": 0, "sample_ok": 0, "sample_err": {}}
     for i, c in enumerate(cases):
+        c.case_index = i
         c.map_model, c.centre_model = outs2[8 * i], outs2[8 * i + 1]
         c.mapx0_model = outs2[8 * i + 2: 8 * i + 6]
         c.ref = outs2[8 * i + 6]
@@ -417,6 +487,8 @@ def direct_case(ctx, cuqi, c, rs, hist):
     except Exception as e:   # construction refused (e.g. get_matrix on a single squeezed parameter)
         ctx.note(f"construction/get_matrix refused: {exc_name(e)} {str(e)[:60]} at {lg_key(c)}")
         return
+    snap0 = {k: snap(v) for k, v in stored_arrays(BP, c.held).items()}
+    objs0 = stored_arrays(BP, c.held)
     # ---- reference (exact)
     if not c.ref.startswith("mean="):
         ctx.note(f"reference not available ({c.ref}) at {key}")
@@ -494,6 +566,78 @@ def direct_case(ctx, cuqi, c, rs, hist):
         oracle_point(ctx, kx, dx, BP.posterior, iv[1], rmean, rs, what="MAP(x0=" + kind + ")")
     # ---- direct sampling with a scripted standard-normal stream
     sample_case(ctx, cuqi, c, BP, desc, rmean, rcov, rs, hist)
+    generic_case(ctx, cuqi, c, BP, desc, key, impl, rmean, rs, snap0, objs0, hist)
+
+
+def generic_case(ctx, cuqi, c, BP, desc, key, impl, rmean, rs, snap0, objs0, hist):
+    """G1 integer-typed inputs, G2 nothing the caller owns / the problem stores is modified, G3 the returned array is not
+    aliased to state, G5 repeated calls and a re-assigned prior mean, G6 a single direct draw"""
+    # G5/G3: a second MAP() returns the same point, also after the first result was overwritten by the caller
+    if impl[0] == "ok":
+        ctx.case("lg-repeat", desc)
+        try:
+            with quiet():
+                x1 = BP.MAP(disp=False)
+                first = np.array(x1, dtype=float).ravel()
+                np.asarray(x1)[...] = 777.0
+                try:
+                    x1.parameters[...] = 777.0
+                except Exception:
+                    pass
+                x2 = np.asarray(BP.MAP(disp=False), dtype=float).ravel()
+            if not np.array_equal(first, impl[1]) or not np.array_equal(x2, impl[1]):
+                ctx.fail(key + ":repeat", desc, "MAP() returns the same point every time " + str(impl[1].tolist()), [first.tolist(), x2.tolist()],
+                         "a repeated MAP() call (or one after the caller overwrote the previous result) returns another point")
+        except Exception as e:
+            ctx.fail(key + ":repeat", desc, "MAP() returns the same point every time", "raises " + exc_name(e), "a repeated MAP() call fails where the first succeeded")
+        # G6: one direct draw
+        orig = np.random.randn
+        np.random.randn = lambda *a: np.zeros(a)
+        try:
+            with quiet():
+                S1 = BP.sample_posterior(1)
+            s1 = np.asarray(S1.samples, dtype=float)
+            if s1.shape != (c.npar, 1) or not vclose(s1[:, 0], impl[1], TOL):
+                ctx.fail(key.replace("MAP:", "sample:", 1) + ":Ns=1", desc, "the single draw for xi=0 is the MAP " + str(impl[1].tolist()), s1.tolist(), "sample_posterior(1) is not centred on the MAP")
+        except Exception as e:
+            hist["sample1_err"] = hist.get("sample1_err", 0) + 1
+        finally:
+            np.random.randn = orig
+    # G2: byte snapshots
+    ctx.case("lg-unmodified", desc)
+    now = stored_arrays(BP, c.held)
+    changed = [k for k, v in snap0.items() if k in now and v is not None and now[k] is objs0[k] and snap(now[k]) != v]
+    if changed:
+        ctx.fail(key + ":modifies:" + "+".join(sorted(changed))[:60], desc, "MAP / sample_posterior leave the problem's arrays untouched", changed,
+                 "a read-only estimate call modified arrays owned by the caller or stored in the problem")
+    # G5: re-assign the prior mean through its setter, then MAP must be that of the current problem
+    if impl[0] == "ok" and c.geom_label in IDENTITY_GEOMS + ("Step-full",) and c.mean_kind in ("vector", "zeros"):
+        newmean = rs.randint(-3, 4, size=c.npar).astype(float)
+        A = c.A @ c.E
+        We = np.array([[float(v) for v in r] for r in c.lik.prec]); Wx = np.array([[float(v) for v in r] for r in c.prior.prec])
+        ref2 = np.linalg.solve(A.T @ We @ A + Wx, A.T @ We @ c.b + Wx @ newmean)
+        ctx.case("lg-setmean", desc)
+        try:
+            with quiet():
+                BP.prior.mean = newmean.copy()
+                x3 = np.asarray(BP.MAP(disp=False), dtype=float).ravel()
+            if not vclose(x3, ref2, 1e-6):
+                ctx.fail(key + ":after-set-mean", {**desc, "new_mean": newmean.tolist()}, "posterior mean for the current prior mean " + str(ref2.tolist()), x3.tolist(),
+                         "MAP after re-assigning the prior mean is not the estimate of the current problem")
+        except Exception as e:
+            ctx.note(f"MAP after prior.mean setter raises {exc_name(e)} at {key}")
+    # G1: the same numbers with integer dtypes / python ints / a list as data
+    if impl[0] == "ok" and c.case_index % 3 == 0:
+        ctx.case("lg-int-inputs", desc)
+        try:
+            with quiet():
+                BPi = build_lg(cuqi, c, as_int=True)
+                xi = np.asarray(BPi.MAP(disp=False), dtype=float).ravel()
+            if not vclose(xi, impl[1], TOL):
+                ctx.fail(key + ":int-inputs", desc, "the estimate for the float64 version of the same numbers " + str(impl[1].tolist()), xi.tolist(),
+                         "MAP with integer-typed matrix / data / mean / covariance differs from the float64 problem")
+        except Exception as e:
+            hist["int_inputs_raise:" + exc_name(e)] = hist.get("int_inputs_raise:" + exc_name(e), 0) + 1
 
 
 def oracle_point(ctx, key, desc, density, x, ref, rs, info=None, tol_point=1e-7, tol_logd=1e-9, grad_tol=1e-6, what="MAP"):
@@ -523,13 +667,18 @@ def oracle_point(ctx, key, desc, density, x, ref, rs, info=None, tol_point=1e-7,
         # derivative of the density itself (central differences of logd), then the implementation's gradient when it
         # is the derivative of logd there (whether `gradient` is the derivative is C03's subject, not decided here)
         h = 1e-4
-        gfd = np.zeros(len(x))
+        gfd = np.zeros(len(x)); hfd = np.zeros(len(x))
         with quiet():
             for i in range(len(x)):
                 e = np.zeros(len(x)); e[i] = h
-                gfd[i] = (float(np.asarray(density.logd(x + e)).ravel()[0]) - float(np.asarray(density.logd(x - e)).ravel()[0])) / (2 * h)
+                lp = float(np.asarray(density.logd(x + e)).ravel()[0]); lm = float(np.asarray(density.logd(x - e)).ravel()[0])
+                gfd[i] = (lp - lm) / (2 * h)
+                hfd[i] = abs(lp - 2 * lx + lm) / (h * h)
         scale = 1.0 + abs(lx) + float(np.abs(x).max(initial=0.0))
-        if not np.all(np.isfinite(gfd)) or float(np.abs(gfd).max(initial=0.0)) > grad_tol * scale * 100:
+        # allowance: absolute (relative to |logd|) + the derivative a displacement of tol_point*(1+|x|) produces at the
+        # measured curvature (so that densities of magnitude 1e12 or 1e-12 are judged in relative terms)
+        allow = grad_tol * scale * 100 + tol_point * hfd * (1.0 + float(np.abs(x).max(initial=0.0)))
+        if not np.all(np.isfinite(gfd)) or bool(np.any(np.abs(gfd) > allow)):
             bad = ("derivative of logd vanishes", gfd.tolist(), f"{what}: the derivative of the log-density does not vanish at the returned point")
         else:
             try:
@@ -537,7 +686,7 @@ def oracle_point(ctx, key, desc, density, x, ref, rs, info=None, tol_point=1e-7,
                     g = np.asarray(density.gradient(x), dtype=float).ravel()
                 if g.shape == gfd.shape and np.all(np.isfinite(g)):
                     if float(np.abs(g - gfd).max(initial=0.0)) <= 1e-5 * scale:
-                        if float(np.abs(g).max(initial=0.0)) > grad_tol * scale * 100:
+                        if bool(np.any(np.abs(g) > allow)):
                             bad = ("gradient vanishes", g.tolist(), f"{what}: gradient does not vanish at the returned point")
                     else:
                         ctx.extra_cov.setdefault("gradient_not_derivative_skipped", 0)
@@ -800,7 +949,7 @@ def run_routes(ctx, cuqi, rs, thorough):
                     xr = np.asarray(xr, dtype=float).ravel()
                     dens = BP.posterior if which == "MAP" else BP.likelihood
                     oracle_point(ctx, key + ":" + which, {**desc, "returned": xr.tolist()}, dens, xr,
-                                 float_ref(BP, which, A, sig2, b, desc["prior"]), rs, tol_point=2e-4, tol_logd=1e-7, grad_tol=1e-5, what=which)
+                                 float_ref(BP, which, A, sig2, b, desc["prior"]), rs, tol_point=2e-3, tol_logd=1e-7, grad_tol=1e-5, what=which)
                 except Exception as e:
                     ctx.note(f"{which} raises {exc_name(e)} on the disagreeing route problem {desc}")
                 finally:
@@ -907,7 +1056,7 @@ def run_ml_full(ctx, cuqi, rs, thorough):
                 ctx.note(f"{key} raises {exc_name(e)}: {str(e)[:60]}")
                 continue
             oracle_point(ctx, key, {**dx, "returned": xv.tolist()}, BP.likelihood, xv, ref, rs,
-                         tol_point=2e-4, tol_logd=1e-7, grad_tol=1e-5, what="ML")
+                         tol_point=2e-3, tol_logd=1e-7, grad_tol=1e-5, what="ML")
 
 
 # ----------------------------------------------------------------------------------------------- optimisation route: oracle only
@@ -955,4 +1104,163 @@ def run_opt(ctx, cuqi, rs, thorough):
                     ctx.note(f"{key}:x0 raises {exc_name(e)}")
                     continue
             oracle_point(ctx, key, {**desc, "returned": x.tolist(), "info": str(getattr(xm, "info", {}).get("success"))},
-                         dens, x, ref, rs, tol_point=2e-4, tol_logd=1e-7, grad_tol=1e-5, what=which)
+                         dens, x, ref, rs, tol_point=2e-3, tol_logd=1e-7, grad_tol=1e-5, what=which)
+
+
+# ----------------------------------------------------------------------------------------------- G1: non-float64 start points (optimisation route)
+def start_variants(n, rs):
+    base = rs.randint(0, 3, size=n)          # small integers: exactly representable in every dtype below
+    out = [("int64", base.astype(np.int64)), ("int32-zeros", np.zeros(n, dtype=np.int32)), ("float32", base.astype(np.float32) + np.float32(0.5)),
+           ("list-float", [float(v) for v in base]), ("list-int", [int(v) for v in base]), ("bool", np.ones(n, dtype=bool))]
+    if n == 1:
+        out += [("python-int", int(base[0]) + 1), ("python-float", 1.5), ("0-d", np.array(2.0)), ("0-d-int", np.array(2))]
+    return out
+
+
+def run_starts(ctx, cuqi, rs, thorough):
+    """MAP/ML(x0=<integer / float32 / list / bool / scalar start>) on every solver the optimisation route can pick:
+    pass-through (equals a direct SciPy call from the float64 version of the same start) + maximiser oracle"""
+    import cuqi.solver as solver_mod
+    import scipy.optimize as opt
+    from scipy.optimize import fmin_l_bfgs_b
+    kinds = ["gmrf", "cmrf", "gaussian-nl", "cauchy", "gmrf", "gaussian-nl-1", "cmrf", "cauchy-1"]
+    nprob = 64 if thorough else 8
+    orig_min, orig_lb = solver_mod.minimize, solver_mod.L_BFGS_B
+    LOG = []
+
+    class RecMin(orig_min):
+        def __init__(self, func, x0, gradfunc=None, method=None, **kw):
+            LOG.append(("minimize", func, x0, gradfunc, method, kw)); super().__init__(func, x0, gradfunc=gradfunc, method=method, **kw)
+
+    class RecLB(orig_lb):
+        def __init__(self, func, x0, gradfunc=None, **kw):
+            LOG.append(("lbfgsb", func, x0, gradfunc, None, kw)); super().__init__(func, x0, gradfunc=gradfunc, **kw)
+    hist = {}
+    try:
+        solver_mod.minimize, solver_mod.L_BFGS_B = RecMin, RecLB
+        for k in range(nprob):
+            kind = kinds[k % len(kinds)]
+            one = kind.endswith("-1")
+            pkind = kind[:-2] if one else kind
+            n = 1 if one else int(rs.randint(2, 4)); m = n + int(rs.randint(0, 3))
+            try:
+                with quiet():
+                    if pkind == "gaussian-nl":
+                        BP, _, A, sig2, b = make_problem(cuqi, "gaussian", "nonlinear", m, n, rs)
+                    else:
+                        BP, _, A, sig2, b = make_problem(cuqi, pkind, "linear", m, n, rs)
+            except Exception as e:
+                ctx.note(f"start problem not constructible {kind}: {exc_name(e)}"); continue
+            for (vk, ux) in start_variants(n, rs):
+                for which in ("MAP", "ML"):
+                    key = f"{which}:opt-start:{pkind}:{vk}"
+                    desc = {"problem": kind, "m": m, "n": n, "x0_arg": np.asarray(ux).tolist(), "x0_type": vk}
+                    ctx.case("start-" + vk, {**desc, "which": which, "k": k})
+                    u0 = snap(ux)
+                    LOG.clear()
+                    try:
+                        with quiet():
+                            xm = getattr(BP, which)(disp=False, x0=ux)
+                        x = np.asarray(xm, dtype=float).ravel()
+                    except Exception as e:
+                        hist[f"raises:{vk}:{exc_name(e)}"] = hist.get(f"raises:{vk}:{exc_name(e)}", 0) + 1
+                        continue
+                    hist["ok:" + vk] = hist.get("ok:" + vk, 0) + 1
+                    if snap(ux) != u0:
+                        ctx.fail(key + ":modifies-x0", desc, "x0 untouched", np.asarray(ux).tolist(), "the caller's start point was modified")
+                    dens = BP.posterior if which == "MAP" else BP.likelihood
+                    # pass-through: what SciPy itself returns from the float64 version of the same start
+                    if LOG:
+                        name, func, x0rec, gradfunc, method, kw = LOG[-1]
+                        x0f = np.atleast_1d(np.asarray(ux, dtype=np.float64)).ravel()
+                        with quiet():
+                            if name == "minimize":
+                                xs = np.asarray(opt.minimize(func, x0f, jac=gradfunc, method=method, **kw)["x"], dtype=float).ravel()
+                            else:
+                                xs = np.asarray(fmin_l_bfgs_b(func, x0f, fprime=gradfunc, approx_grad=(1 if gradfunc is None else 0), **kw)[0], dtype=float).ravel()
+                        if x.shape != xs.shape or not vclose(x, xs, 2e-3 if vk == "float32" else 1e-5):   # SciPy keeps float32 starts in single precision for a while
+                            ctx.disagree(key, desc, "SciPy's x from the float64 start: " + str(xs.tolist()), x.tolist(), "returned point is not SciPy's solution (wrapperResult)")
+                    ref = float_ref(BP, which, A, sig2, b, pkind) if pkind == "gmrf" else None
+                    oracle_point(ctx, key, {**desc, "returned": x.tolist()}, dens, x, ref, rs, tol_point=2e-3, tol_logd=1e-7, grad_tol=1e-5, what=which)
+    finally:
+        solver_mod.minimize, solver_mod.L_BFGS_B = orig_min, orig_lb
+    ctx.extra_cov["start_point_histogram"] = hist
+
+
+# ----------------------------------------------------------------------------------------------- G4: scales on the optimisation route
+def ar1(m, rho):
+    return np.array([[rho ** abs(i - j) for j in range(m)] for i in range(m)])
+
+
+def run_opt_scale(ctx, cuqi, rs, thorough):
+    """full noise / prior covariance matrices of absolute size 1e-12..1 (relative correlations O(1)): ML, MAP with a GMRF
+    prior (optimisation route) and `_solve_max_point(posterior)` on Gaussian-prior problems vs the exact Q reference
+    (generalised least squares / posterior mean), relatively.  Large scales (>= 1e8) are a separate key class."""
+    from cuqi.distribution import Gaussian, GMRF
+    from cuqi.model import LinearModel, Model
+    from cuqi.problem import BayesianProblem
+    scales = [1e-12, 1e-9, 1e-6, 1e-3, 1.0, 1e-10, 1e-8, 1e8, 1e12]
+    nprob = len(scales) * (6 if thorough else 2)
+    probs, lines = [], []
+    for k in range(nprob):
+        sc = scales[k % len(scales)]
+        n = int(rs.randint(2, 4)); m = n + int(rs.randint(1, 3))
+        A = rs.randint(-2, 3, size=(m, n)).astype(float)
+        for i in range(n):
+            A[i, i] += 3.0
+        rho = float(rs.choice([0.5, -0.5, 0.25]))
+        Sig = sc * ar1(m, rho) if k % 2 == 0 else sc * np.array(gen_spec(rs, m, "cov", "matrix").value)
+        Gam = sc * (ar1(n, 0.5) * 2.0)
+        mu = rs.randint(-1, 2, size=n).astype(float)
+        b = rs.randint(-4, 5, size=m).astype(float)
+        We = finv(fmat(Sig)); Wx = finv(fmat(Gam))
+        probs.append((sc, A, Sig, Gam, mu, b, n, m))
+        lines.append(f"ref {qm(A)} {sm(We)} {sm([[Fraction(0)] * n for _ in range(n)])} {qv(np.zeros(n))} {qv(b)}")
+        lines.append(f"ref {qm(A)} {sm(We)} {sm(Wx)} {qv(mu)} {qv(b)}")
+    outs = ctx.lean.drive(lines)
+    for i, (sc, A, Sig, Gam, mu, b, n, m) in enumerate(probs):
+        cls = "small" if sc <= 1 else "large"
+        desc = {"scale": sc, "A": A.tolist(), "noise_cov": Sig.tolist(), "prior_cov": Gam.tolist(), "prior_mean": mu.tolist(), "b": b.tolist()}
+        o_ml, o_map = outs[2 * i], outs[2 * i + 1]
+        if not (o_ml.startswith("mean=") and o_map.startswith("mean=")):
+            ctx.note(f"opt-scale: no exact reference at scale {sc}"); continue
+        ref_ml = np.array([float(v) for v in pv(o_ml.split(" ")[0][5:])])
+        ref_map = np.array([float(v) for v in pv(o_map.split(" ")[0][5:])])
+        with quiet():
+            x = Gaussian(mu, cov=Gam); y = Gaussian(LinearModel(A)(x), cov=Sig)
+            BP = BayesianProblem(y, x).set_data(y=b)
+            xg = GMRF(np.zeros(n), 2.0 / sc); yg = Gaussian(LinearModel(A)(xg), cov=Sig)
+            BPg = BayesianProblem(yg, xg).set_data(yg=b)
+        jobs = [("ML", f"ML:opt-scale:{cls}:cov-matrix", lambda: BP.ML(disp=False), BP.likelihood, ref_ml),
+                ("MAP-forced", f"MAP:opt-scale:{cls}:solve_max_point", lambda: cuqi.array.CUQIarray(BP._solve_max_point(BP.posterior, disp=False)[0], geometry=BP.posterior.geometry), BP.posterior, ref_map),
+                ("MAP-direct", f"MAP:direct-scale:{cls}", lambda: BP.MAP(disp=False), BP.posterior, ref_map),
+                ("MAP-gmrf", f"MAP:opt-scale:{cls}:gmrf", lambda: BPg.MAP(disp=False), BPg.posterior, None)]
+        for nm, key, call, dens, ref in jobs:
+            ctx.case("scale-" + nm, {**desc, "call": nm})
+            try:
+                with quiet():
+                    xv = np.asarray(call(), dtype=float).ravel()
+            except Exception as e:
+                ctx.note(f"{key} raises {exc_name(e)} at scale {sc}"); continue
+            if nm == "MAP-gmrf":
+                ref = float_ref(BPg, "MAP", A, Sig, b, "gmrf")
+            oracle_point(ctx, key, {**desc, "returned": xv.tolist()}, dens, xv, ref, rs,
+                         tol_point=(1e-7 if nm == "MAP-direct" else 2e-3), tol_logd=1e-7, grad_tol=1e-5, what=nm)
+        # a non-linear model with the same tiny full noise covariance (local oracle only)
+        if sc <= 1 and i % 3 == 0:
+            c3 = 0.125
+            with quiet():
+                xn = Gaussian(np.zeros(n), cov=Gam)
+                Mn = Model(lambda x: x + c3 * x ** 3, range_geometry=n, domain_geometry=n, jacobian=lambda x: np.diag(1 + 3 * c3 * x ** 2))
+                yn = Gaussian(Mn(xn), cov=sc * ar1(n, 0.5))
+                BPn = BayesianProblem(yn, xn).set_data(yn=b[:n] / 4.0)
+            for which in ("MAP", "ML"):
+                key = f"{which}:opt-scale:{cls}:nonlinear"
+                ctx.case("scale-nl-" + which, {**desc, "call": which})
+                try:
+                    with quiet():
+                        xv = np.asarray(getattr(BPn, which)(disp=False), dtype=float).ravel()
+                except Exception as e:
+                    ctx.note(f"{key} raises {exc_name(e)} at scale {sc}"); continue
+                oracle_point(ctx, key, {**desc, "returned": xv.tolist()}, BPn.posterior if which == "MAP" else BPn.likelihood, xv, None, rs,
+                             tol_point=2e-3, tol_logd=1e-7, grad_tol=1e-5, what=which)
